@@ -824,8 +824,9 @@ class TextXMetaModel(DebugPrinter):
                 pre_ref_resolution_callback=kwargs_callback,
                 is_main_model=is_main_model,
             )
-
-        self._call_model_processors(model, known_models)
+            # (a model served from the global repository has been processed
+            # when it was loaded)
+            self._call_model_processors(model, known_models)
 
         return model
 
